@@ -19,6 +19,7 @@ type thread struct {
 	blocked  func() bool // nil = runnable; else returns true when it may proceed
 	what     string
 	daemon   bool
+	blockWhat string
 	exited   chan struct{}
 }
 
@@ -46,7 +47,7 @@ func (p *Path) newThread() *thread {
 func (p *Path) spawn(fn Value, args []Value, pos token.Pos) *thread {
 	th := p.newThread()
 	th.what = fmt.Sprintf("go@%s", p.posStr(pos))
-	if len(p.threads) > p.ex.maxThreads {
+	if lim := p.ex.maxThreads; (p.maxThreadsOpt == 0 && len(p.threads) > lim) || (p.maxThreadsOpt > 0 && len(p.threads) > p.maxThreadsOpt) {
 		p.inconc = append(p.inconc, "thread bound exceeded")
 		p.abort("unwind: threads")
 	}
@@ -120,6 +121,9 @@ func (p *Path) pickNext(except *thread) *thread {
 	if len(c) == 0 {
 		return nil
 	}
+	if p.schedDet {
+		return c[0]
+	}
 	return c[p.choose(len(c))]
 }
 
@@ -143,6 +147,7 @@ func (p *Path) block(fr *frame, th *thread, cond func() bool, what string, pos t
 		return
 	}
 	th.blocked = cond
+	th.blockWhat = what + " in " + fnName(fr) + " @" + p.posStr(pos)
 	defer func() { th.blocked = nil }()
 	for {
 		next := p.pickNext(th)
@@ -250,7 +255,11 @@ func (p *Path) chanSend(fr *frame, c *ChanObj, v Value, pos token.Pos) {
 		c.Buf = append(c.Buf, copyVal(v))
 		return
 	}
-	// unbuffered: enqueue and wait until a receiver takes it
+	// unbuffered: a receiver already parked on the channel (plain receive or select) gets the value at once
+	if c.handToReceiver(v) {
+		return
+	}
+	// otherwise enqueue and wait until a receiver takes it
 	w := &chanWaiter{th: th, val: copyVal(v)}
 	c.sendq = append(c.sendq, w)
 	p.block(fr, th, func() bool { return w.done || c.Closed }, "chan send (unbuffered)", pos)
@@ -289,6 +298,16 @@ func (p *Path) chanRecv(fr *frame, c *ChanObj, pos token.Pos) (Value, bool) {
 	p.preemptPoint(th)
 	if c == nil {
 		p.block(fr, th, func() bool { return false }, "receive on nil channel", pos)
+	}
+	if c.Cap == 0 && !c.canRecvLive() {
+		w := &chanWaiter{th: th}
+		c.recvq = append(c.recvq, w)
+		p.block(fr, th, func() bool { return w.done || c.canRecvLive() }, "chan recv", pos)
+		if w.done {
+			return w.val, w.ok
+		}
+		c.dropWaiter(w)
+		return c.take()
 	}
 	p.block(fr, th, func() bool { return c.canRecvLive() }, "chan recv", pos)
 	return c.take()
@@ -354,7 +373,22 @@ func (p *Path) doSelect(fr *frame, instr *ssa.Select) Value {
 		if !instr.Blocking {
 			return p.selectResult(instr, -1, nil, false)
 		}
-		p.block(fr, th, func() bool { return len(ready()) > 0 }, "select", instr.Pos())
+		sw := &selWait{}
+		var parked []*chanWaiter
+		for i, st := range states {
+			if st.ch != nil && !st.send && st.ch.Cap == 0 {
+				w := &chanWaiter{th: th, sel: sw, idx: i}
+				st.ch.recvq = append(st.ch.recvq, w)
+				parked = append(parked, w)
+			}
+		}
+		p.block(fr, th, func() bool { return sw.done || len(ready()) > 0 }, "select", instr.Pos())
+		for _, w := range parked {
+			states[w.idx].ch.dropWaiter(w)
+		}
+		if sw.done {
+			return p.selectResult(instr, sw.chosen, sw.val, sw.ok)
+		}
 		r = ready()
 	}
 	i := r[p.choose(len(r))]
@@ -367,9 +401,7 @@ func (p *Path) doSelect(fr *frame, instr *ssa.Select) Value {
 			s.ch.Buf = append(s.ch.Buf, copyVal(s.val))
 		} else {
 			// hand to a waiting receiver
-			w := s.ch.recvq[0]
-			s.ch.recvq = s.ch.recvq[1:]
-			w.val, w.ok, w.done = copyVal(s.val), true, true
+			s.ch.handToReceiver(s.val)
 		}
 		return p.selectResult(instr, i, nil, false)
 	}
@@ -377,7 +409,40 @@ func (p *Path) doSelect(fr *frame, instr *ssa.Select) Value {
 	return p.selectResult(instr, i, v, ok)
 }
 
-func (p *Path) hasLiveRecv(c *ChanObj) bool { return len(c.recvq) > 0 }
+func (p *Path) hasLiveRecv(c *ChanObj) bool {
+	for _, w := range c.recvq {
+		if !w.done && (w.sel == nil || !w.sel.done) {
+			return true
+		}
+	}
+	return false
+}
+
+// handToReceiver gives v to the first receiver parked on the unbuffered channel c (plain receive or select case).
+func (c *ChanObj) handToReceiver(v Value) bool {
+	for len(c.recvq) > 0 {
+		w := c.recvq[0]
+		c.recvq = c.recvq[1:]
+		if w.done || (w.sel != nil && w.sel.done) {
+			continue
+		}
+		w.val, w.ok, w.done = copyVal(v), true, true
+		if w.sel != nil {
+			w.sel.done, w.sel.chosen, w.sel.val, w.sel.ok = true, w.idx, w.val, true
+		}
+		return true
+	}
+	return false
+}
+
+func (c *ChanObj) dropWaiter(w *chanWaiter) {
+	for i, x := range c.recvq {
+		if x == w {
+			c.recvq = append(c.recvq[:i:i], c.recvq[i+1:]...)
+			return
+		}
+	}
+}
 
 func (p *Path) selectResult(instr *ssa.Select, chosen int, v Value, ok bool) Value {
 	r := TupleVal{BV(64, uint64(int64(chosen))), BoolT(ok)}
@@ -398,7 +463,7 @@ func (p *Path) selectResult(instr *ssa.Select, chosen int, v Value, ok bool) Val
 func (p *Path) addTimer(d *Term, fn Value, ch *ChanObj) *timerObj {
 	t := &timerObj{deadline: Bin(OAdd, p.now, d), fn: fn, ch: ch, active: true, id: len(p.timers)}
 	p.timers = append(p.timers, t)
-	if len(p.timers) > 64 {
+	if (p.maxTimersOpt == 0 && len(p.timers) > 64) || (p.maxTimersOpt > 0 && len(p.timers) > p.maxTimersOpt) {
 		p.inconc = append(p.inconc, "timer bound exceeded")
 		p.abort("unwind: timers")
 	}
@@ -442,7 +507,14 @@ func (p *Path) fireNextTimer(fr *frame) bool {
 
 func (p *Path) fireTimer(t *timerObj) {
 	t.active = false
-	p.now = Ite(Cmp(OSlt, p.now, t.deadline), t.deadline, p.now)
+	if p.schedDet && !p.now.IsConst() || p.schedDet && !t.deadline.IsConst() {
+		// cluster mode: keep the clock term small - decide now <= deadline once instead of nesting an ite per firing
+		if p.branch(Cmp(OSle, p.now, t.deadline)) {
+			p.now = t.deadline
+		}
+	} else {
+		p.now = Ite(Cmp(OSlt, p.now, t.deadline), t.deadline, p.now)
+	}
 	if t.period != nil {
 		t.deadline = Bin(OAdd, t.deadline, t.period)
 		t.active = true
